@@ -195,16 +195,77 @@ def run_impl(case):
         if 'text' in r:
             r['text'] = lib.hx(r['text'])
         o['writes'].append(r)
+    if case['widths'] and (sum(src) % 4 == 0 or _unconsumed_obs(o)):
+        r = cli_luafmt(src)
+        if r is not None:
+            o['writes'].append(r)
     return o
+
+
+def _unconsumed_obs(o):
+    try:
+        return _unconsumed(o)
+    except Exception:  # noqa
+        return False
+
+
+def cli_luafmt(src):
+    """`p8tool luafmt cart.p8` on a cart file holding src: one more write record (w = 'cli'), judged by the same monitor
+    clause as the API writes - an output cart counts as written text, a failure as a raised error.  None when src cannot
+    be the body of a __lua__ section as it stands (the .p8 reader would hand the lexer other chunks)."""
+    import io
+    import os
+    from props import c07, mincommon, luagen
+    if c07.p8file_chunks(src) != luagen.split_lines(src):
+        return None
+    from pico8 import tool
+    from pico8.lua import lua
+    cart = mincommon.path('.p8')
+    outp = cart[:-3] + '_fmt.p8'
+    sink = io.StringIO()
+    try:
+        with open(cart, 'wb') as fh:
+            fh.write(b'pico-8 cartridge // http://www.pico-8.com\nversion %d\n__lua__\n' % lib.lua_version(src) +
+                     bytes(lua.p8scii_to_unicode(src), 'utf-8'))
+        try:
+            with mincommon.quiet(sink):
+                rc = tool.main(['luafmt', cart])
+        except RecursionError:
+            return {'res': 'ERR RecursionError', 'w': 'cli'}
+        except BaseException as e:  # noqa
+            return {'res': 'ERR cli-raised-' + lib.exc_name(e), 'w': 'cli', 'events': '-'}
+        if not os.path.exists(outp):
+            return {'res': 'ERR cli-exit-%s-no-output' % rc, 'w': 'cli', 'events': '-'}
+        with open(outp, 'rb') as fh:
+            txt = fh.read()
+        a = txt.index(b'__lua__\n') + 8
+        b = txt.find(b'\n__gfx__\n', a)
+        sect = txt[a:] if b < 0 else txt[a:b + 1]
+        text = bytes(lua.unicode_to_p8scii(sect.decode('utf-8')))
+        r = {'res': 'OK', 'w': 'cli', 'text': lib.hx(text), 'events': '-', 'rc': rc}
+        try:
+            r['out_enc'] = pstack.enc_tokens(pstack.lex(text))
+        except Exception:  # noqa
+            r['out_enc'] = None
+        return r
+    finally:
+        for f in (cart, outp):
+            if os.path.exists(f):
+                os.remove(f)
 
 
 def model_requests(case, obs):
     if 'writes' not in obs:
         return []
     reqs = ['chunks %s %s' % (obs['enc'], obs['tree'])]
-    for r in obs['writes']:
+    for r in _api_writes(obs):
         reqs.append('text %d %s %s' % (r['w'], obs['enc'], obs['tree']))
     return reqs
+
+
+def _api_writes(obs):
+    # the command-line record (w = 'cli') is judged by the monitor only; the model's text is compared with the API writes
+    return [r for r in obs['writes'] if r['w'] != 'cli']
 
 
 def _strip_code_text(chunks):
@@ -215,7 +276,7 @@ def compare(case, obs, answers):
     if 'writes' not in obs:
         return None
     ch = answers[0]
-    for r, a in zip(obs['writes'], answers[1:]):
+    for r, a in zip(_api_writes(obs), answers[1:]):
         if r['res'] == 'ERR RecursionError':
             continue
         if r['res'].startswith('ERR'):
